@@ -176,6 +176,10 @@ def run_swarm(case):
                     # a dictionary that lacks one member's entry: what the members then do is not specified, only
                     # that parallel() still does not raise
                     del args_dict[uris[call['nargs'] % len(uris)]]
+                if call.get('entry_kind') == 'tuple' and args_dict and call['args'] not in ('reuse', 'shared'):
+                    # the entries of the dictionary are any sequence of arguments: tuples as well as lists
+                    args_dict = {u_: tuple(v_) for u_, v_ in args_dict.items()}
+                    out.feat('tuple-entries')
                 prev_args = (args_dict, expect_args)
                 events = []
                 running = set()
@@ -285,7 +289,7 @@ def swarm_case(draw):
             calls.append({'mode': draw(st.sampled_from(['sequential', 'parallel', 'parallel_safe', 'parallel_safe'])),
                           'args': draw(st.sampled_from(['none', 'empty', 'fresh', 'fresh', 'reuse', 'shared', 'missing'])), 'nargs': draw(st.integers(0, 3)),
                           'fail': draw(st.one_of(st.just([]), st.lists(st.sampled_from(uris), unique=True, max_size=3))) if uris else [],
-                          'yields': draw(st.integers(0, 3)), 'exc': draw(_exc)})
+                          'yields': draw(st.integers(0, 3)), 'exc': draw(_exc), 'entry_kind': draw(st.sampled_from(['list', 'list', 'tuple']))})
     return {'uris': uris, 'open_fail': open_fail, 'open_yields': draw(st.integers(0, 2)), 'calls': calls, 'schedule': draw(_sched), 'exc': draw(_exc),
             'container': draw(st.sampled_from(['list', 'list', 'tuple', 'dict-keys', 'dict', 'generator']))}
 
